@@ -380,7 +380,7 @@ where
             }
             self.length = new_len;
         } else if new_len > self.length {
-            debug_assert!(new_len <= Self::capacity());
+            assert!(new_len <= Self::capacity());
             let sign_pattern = match bit {
                 Bit::Zero => I::MIN,
                 Bit::One => I::MAX,
